@@ -13,6 +13,7 @@ int pick(int a, int b, int c);
 int pick(double x);
 int stride(int num, int offset = 0, int step = 1);
 int toggle(bool flag, int n = 1, int m = 2);
+int divide(int num, int *rem, int den = 10, bool neg = false);
 void fill2(int nrow, int ncol, double *out);
 int *getRow(int n);
 #endif
